@@ -371,9 +371,14 @@ impl Cpp {
                 self.dependencies.needs_bit = true;
                 format!("std::bit_cast<float, int32_t>({op})")
             }
-            Bitcast::F32ToI32 | Bitcast::F32ToI64 => {
+            Bitcast::F32ToI32 => {
                 self.dependencies.needs_bit = true;
                 format!("std::bit_cast<int32_t, float>({op})")
+            }
+            // zero-extend the 32 payload bits into the 64-bit slot
+            Bitcast::F32ToI64 => {
+                self.dependencies.needs_bit = true;
+                format!("(int64_t) std::bit_cast<uint32_t, float>({op})")
             }
             Bitcast::I64ToF64 => {
                 self.dependencies.needs_bit = true;
@@ -383,7 +388,11 @@ impl Cpp {
                 self.dependencies.needs_bit = true;
                 format!("std::bit_cast<int64_t, double>({op})")
             }
-            Bitcast::I32ToI64 | Bitcast::LToI64 | Bitcast::PToP64 => {
+            // zero-extend, as the canonical ABI does when joining `i32` into `i64`
+            Bitcast::I32ToI64 => {
+                format!("(int64_t) (uint32_t) {op}")
+            }
+            Bitcast::LToI64 | Bitcast::PToP64 => {
                 format!("(int64_t) {op}")
             }
             Bitcast::I64ToI32 | Bitcast::PToI32 | Bitcast::LToI32 => {
